@@ -1,10 +1,10 @@
 package main
 
 import (
-	"strings"
 	"fmt"
 	"go/token"
 	"go/types"
+	"strings"
 
 	"golang.org/x/tools/go/ssa"
 )
@@ -33,8 +33,10 @@ func runC07(r *Report) {
 
 // R5 (from round-2 seeded changes):
 // (a) once the MSE handshake has returned, the BitTorrent handshake reads and writes through the connection it
-//     returned: a read from the raw socket after negotiation takes ciphertext for the peer id and leaves the RC4
-//     stream out of step — but only when those bytes arrive in a later segment than the rest (short or empty IA);
+//
+//	returned: a read from the raw socket after negotiation takes ciphertext for the peer id and leaves the RC4
+//	stream out of step — but only when those bytes arrive in a later segment than the rest (short or empty IA);
+//
 // (b) both ends agree on the mode: the server selects only what the client offered (C08.R1, shared).
 func c07R5(r *Report) {
 	p := r.P
